@@ -100,3 +100,8 @@ Theorem C09_release_from_source : forall s c s' cs, free_chain s c = Ok s' -> ch
   s_hint s' = fold_left (fun a cl => Gen.free_hint_step cl a) cs (s_hint s).
 Proof. exact free_chain_gen. Qed.
 Print Assumptions C09_release_from_source.
+
+(** the state a mount produces satisfies the invariant (its hint is 0) *)
+Theorem C09_hint_after_mount : forall d dsize ro pc s dirty, mount d dsize ro pc = Ok (s, dirty) -> s_hint s = 0 /\ hint_inv s.
+Proof. exact mount_hint_inv. Qed.
+Print Assumptions C09_hint_after_mount.
